@@ -1180,6 +1180,13 @@ class Interp:
                 cv = self.class_constant(self.classes[obj.name[6:]], attr)
                 if cv is not None:
                     return cv
+            # a literal table kept on another class of the repository (`Validator.PRIORITY`): read through the repository-wide index
+            key = obj.name + "." + attr
+            if Interp.global_literals is not None and key in Interp.global_literals:
+                try:
+                    return self.eval(Interp.global_literals[key], {})
+                except Unsupported:
+                    pass
             return Opaque(obj.name + "." + attr)
         if isinstance(obj, Model):
             if attr == "objective":
